@@ -670,6 +670,12 @@ def _constraint(desc):
     return p.constraint.ConstraintsIntersection(*cs)
 
 
+# How types are declared: None = instances configured through constructor arguments and subtype() (the way
+# hand-written code does it); 'class' = user subclasses with class-level declarations (componentType,
+# subtypeSpec, namedValues, tagSet), the way modules generated from ASN.1 sources do it.
+STYLE = [None]
+
+
 def build_schema(desc):
     """pyasn1 schema object for a descriptor, public API only."""
     k = desc['k']
@@ -704,7 +710,27 @@ def build_schema(desc):
         kw['subtypeSpec'] = con
     elif con is not None and api == 'sizeSpec-init':
         kw['sizeSpec'] = con
+    class_tags = False
+    if STYLE[0] == 'class' and not api:
+        attrs = {}
+        for key in ('componentType', 'namedValues'):
+            if key in kw:
+                attrs[key] = kw.pop(key)
+        if 'subtypeSpec' in kw:
+            attrs['subtypeSpec'] = cls.subtypeSpec + kw.pop('subtypeSpec')
+        if k not in ('CHOICE', 'ANY') and desc.get('tags'):
+            ts = cls.tagSet
+            for mode, c, number in desc['tags']:
+                t = p.tag.Tag(_tag_class(c), p.tag.tagFormatSimple, number)
+                ts = ts.tagImplicitly(t) if mode == 'I' else ts.tagExplicitly(t)
+            attrs['tagSet'] = ts
+            class_tags = True
+        cls = type('Gen' + cls.__name__, (cls,), attrs)
     obj = cls(**kw)
+    if class_tags:
+        if (desc.get('con') or {}).get('refine_values') is not None:
+            obj = obj.subtype(subtypeSpec=p.constraint.SingleValueConstraint(*desc['con']['refine_values']))
+        return obj
     if con is not None and api == 'sizeSpec-subtype':
         obj = obj.subtype(sizeSpec=con)
     elif con is not None and api == 'sizeSpec-clone':
@@ -857,6 +883,15 @@ def tagset_key(ts):
     return tuple((int(t.tagClass), int(t.tagFormat), int(t.tagId)) for t in ts.superTags)
 
 
+def _library_class_name(o):
+    """Name of the pyasn1 class an object is an instance of, looking through user subclasses (the abstract
+    value does not depend on what a schema author called a subclass)."""
+    for c in type(o).__mro__:
+        if (getattr(c, '__module__', '') or '').startswith('pyasn1.'):
+            return c.__name__
+    return type(o).__name__
+
+
 def absval(o, with_tags=True):
     """Nested tuples describing a pyasn1 object through public read-only API.
     Never uses == on pyasn1 objects and never instantiates placeholders."""
@@ -865,7 +900,7 @@ def absval(o, with_tags=True):
         return None
     if not isinstance(o, p.base.Asn1Item):
         return ('NOT-ASN1', type(o).__name__, repr(o)[:80])
-    head = (type(o).__name__, tagset_key(o.tagSet) if with_tags else ())
+    head = (_library_class_name(o), tagset_key(o.tagSet) if with_tags else ())
     if isinstance(o, univ.Choice):
         if not _safe_isvalue(o) and len(o) == 0:
             return head + ('EMPTY',)
@@ -988,14 +1023,16 @@ def _canon_real(t):
     """(mantissa, base, exponent) denotes mantissa * base**exponent: the same number has many triples."""
     m, b, e = t
     try:
-        m, b, e = int(m) if float(m) == int(m) else m, int(b), int(e)
+        if not isinstance(m, int):
+            m = int(m) if float(m) == int(m) else m
+        b, e = int(b), int(e)
     except (TypeError, ValueError, OverflowError):
         return t
     if not isinstance(m, int):
         return t
     if m == 0:
         return (0, 10, 0)
-    if abs(m).bit_length() > 10000:
+    if b == 10 and abs(m).bit_length() > 10000:
         return (m, b, e)        # beyond CPython's int-to-decimal limit: compared exactly
     if b == 10:
         # character-form REALs live as Python floats inside the library: 15 significant
